@@ -42,7 +42,7 @@ def build():
             dst = os.path.join(CACHE, "replay-src")
             shutil.rmtree(dst, ignore_errors=True)
             shutil.copytree(src, dst, ignore=shutil.ignore_patterns("target"))
-            t = open(os.path.join(dst, "Cargo.toml")).read().replace('"/repo/acts"', '"%s/acts"' % REPO)
+            t = open(os.path.join(dst, "Cargo.toml")).read().replace('"/repo/', '"%s/' % REPO)
             open(os.path.join(dst, "Cargo.toml"), "w").write(t)
             src = dst
         r = subprocess.run(["cargo", "build", "--offline", "--features", "verif"] if os.environ.get("VERIF_REPLAY_FEATURES") else ["cargo", "build", "--offline"],
